@@ -70,7 +70,7 @@ CLAIMS["C17"] = ("bounded symbolic execution (symx) of the real NumberTree, Page
 CLAIMS["C18"] = ("bounded symbolic execution (symx, symbolic bytes) of the real ImageWriter.export_image/_save_bmp/BMPWriter and PDFContentParser inline-image scanning",
          "For each listed geometry (1/8/24 bits, widths 1..9, heights 1..3) and ALL sample bytes the exported BMP, decoded by a reference BMP reader, gives back exactly the stored samples, with a file length "
          "matching its header; export_image chooses a writer without exception for every listed filter list / colour space / bit depth and writes JPEG data unchanged; for ALL inline image data of up to 4 symbolic "
-         "bytes not containing the end marker the data is captured completely and the following operators are read as without the image, also when the image sits in a later stream of a Contents array (5 layouts of earlier streams); RGB / gray / 1-bit images stored through 14 real filter chains (Flate, LZW, RunLength, ASCIIHex, ASCII85, PNG predictors 10/12/15, TIFF predictor) give back their samples from LTImage.stream.get_data() and in the exported BMP; every sequence of up to 3 (thorough 4) images over four names and two formats exported into one real directory gives as many files as images, distinct names, each file holding its own samples.",
+         "bytes not containing the end marker the data is captured completely and the following operators are read as without the image, also when the image sits in a later stream of a Contents array (5 layouts of earlier streams); RGB / gray / 1-bit images (up to 52x50 noisy samples, so that LZW reaches 12-bit codes) stored through 14 real filter chains (Flate, LZW, RunLength, ASCIIHex, ASCII85, PNG predictors 10/12/15, TIFF predictor) give back their samples from LTImage.stream.get_data() and in the exported BMP; every sequence of up to 3 (thorough 4) images over four names and two formats exported into one real directory gives as many files as images, distinct names, each file holding its own samples.",
          "4.C18")
 CLAIMS["C15"] = ("symbolic execution of the real CMapDB._load_data and ImageWriter._create_unique_image_name: CrossHair (symbolic str over all of Unicode, budgeted) plus symx (every name over an 8-letter hostile alphabet, exhaustive)",
          "With the filesystem replaced by a recording stub whose exists() answers are symbolic, every path that a CMap name makes the library probe or open lies directly inside one of the two character-map "
@@ -89,14 +89,14 @@ CLAIMS["C06"] = ("symbolic execution (symx) of the real EncodingDB.get_encoding,
          "4.C06")
 CLAIMS["C07"] = ("symbolic execution (symx) of the real IdentityCMap(.Byte).decode, CMap.decode + FileCMap.add_code2cid, CMapParser.do_keyword (bfchar/bfrange), get_widths/get_widths2 and the CMapDB caches",
          "For all byte strings up to 5 symbolic bytes the identity CMaps give the big-endian 2-byte (1-byte) codes and ignore a trailing odd byte; for every subset of the listed 1- and 2-byte codes and every string "
-         "of the bound the trie walk segments by first byte; bfchar / bfrange (increment and array forms) with symbolic code and target bytes register code s+i -> target+i per ISO 9.10.3; W / W2 arrays in both "
+         "of the bound the trie walk segments by first byte; bfchar / bfrange (increment and array forms) with symbolic code and target bytes register code s+i -> target+i per ISO 9.10.3; a code defined twice keeps the later definition (every ordered pair of nine targets; the library's space-then-NO-BREAK-SPACE rule excluded); W / W2 arrays in both "
          "syntaxes with symbolic codes and widths give exactly the listed code->width entries; the CMapDB caches return the right map for every 3-call history; char_width / char_disp of the real PDFCIDFont equal W/DW (W2/DW2) for symbolic widths incl. 0; "
          "TrueTypeFont.create_unicode_map on generated font files with a format-4 cmap of 1-3 segments, symbolic idDelta and glyphIdArray entries maps every code to the OpenType glyph. "
          "NOT claimed: the predefined CJK tables and the 'agrees with platform codecs' clause (static data), TrueType cmap formats 0 and 2.",
          "4.C07")
 CLAIMS["C10"] = ("bounded symbolic execution (symx) of the security handlers: key derivation and password authentication (R2-R6) with md5/SHA/RC4/AES as z3 uninterpreted functions (equality of derived keys decided "
          "by congruence against ISO 32000-1 Algorithms 2-7 / ISO 32000-2 Algorithms 2.A, 2.B), and the plumbing around the primitives (init_params/is_*able, decipher_all + getobj, unpad_aes, per-object keys, V4 decrypt) with recording stubs",
-         "PARTIAL by design: cipher/hash correctness (C code, XOR loops), rejection of wrong passwords (needs collision resistance) and SASLprep are NOT claimed. Claimed for all values within bounds: for R2, R3 (40/56/128-bit), R4 "
+         "PARTIAL by design: cipher/hash correctness (C code, XOR loops), rejection of wrong passwords (needs collision resistance) and the Unicode tables of SASLprep are NOT claimed (one real R5/R6 password pair with compatibility characters runs through H7). Claimed for all values within bounds: for R2, R3 (40/56/128-bit), R4 "
          "(EncryptMetadata on/off) every user and owner password of 0/1/33 symbolic bytes, every signed 32-bit P and symbolic ID derive exactly the Algorithm-2 file key and are accepted; R5/R6 authenticate recovers the file key from "
          "UE/OE for both passwords; _r6_password equals Algorithm 2.B for 64..66 rounds under 2 (quick) / 5 (thorough) SHA-selection patterns; permission flags equal bits 3,4,5 of every signed 32-bit P; every non-empty string leaf "
          "is deciphered exactly once with the enclosing (objid, genno) and object-stream members not at all, caching on or off; PKCS#5 padding of every length 1..16 is removed; per-object key material is key + objid[0:3] + genno[0:2] "
